@@ -178,6 +178,42 @@ def install(R):
     for mname in ("predict_proba", "transform", "decision_function"):
         R.methods[("estimator", mname)] = rowwise2(mname)
 
+    Val = z3.DeclareSort("Val")
+    R.Val = Val
+
+    def m_get_params(E, recv, args, kwargs, node):
+        E.trace.append(dict(op="get_params", obj=recv))
+        return dict(recv.fields["$params"])
+    R.methods[("estimator", "get_params")] = m_get_params
+
+    def m_set_params(E, recv, args, kwargs, node):
+        """sklearn protocol: sets exactly the given parameters, ValueError for an unknown name, returns self"""
+        from . import dicts
+        maybe_raise(E, "set_params", node)
+        given = dicts.items(kwargs)
+        for k, v in given:
+            key = dicts.find(R, E, recv.fields["$params"], k, node)
+            if key is None:
+                raise Raised("ValueError", ("Invalid parameter",), node, "external")
+            recv.fields["$params"][key] = v
+        recv.events.append(("call", "set_params"))
+        E.trace.append(dict(op="set_params", obj=recv, given=given))
+        return recv
+    R.methods[("estimator", "set_params")] = m_set_params
+
+    def str_split(E, recv, args, kwargs, node):
+        """s.split(sep, 1) for a symbolic s: split at the first occurrence of sep"""
+        sep = args[0] if args else None
+        maxsplit = args[1] if len(args) > 1 else kwargs.get("maxsplit", -1)
+        if sep is None or is_sym(sep) or maxsplit != 1:
+            raise Unsupported("str.split on a symbolic string supports split(sep, 1) only")
+        sv = z(recv)
+        idx = z3.IndexOf(sv, z3.StringVal(sep), 0)
+        if E.branch(idx >= 0):
+            return [z3.SubString(sv, 0, idx), z3.SubString(sv, idx + len(sep), z3.Length(sv) - idx - len(sep))]
+        return [recv]
+    R.str_split = str_split
+
     @reg("sklearn.base.clone")
     def _clone(E, est, safe=True):
         if isinstance(est, Obj) and est.tag == "estimator":
@@ -283,6 +319,36 @@ def install(R):
         R.fns["sklearn.base.%s.__init__" % cls] = lambda E, *a, **k: None
         R.ext_methods.setdefault("sklearn.base." + cls, {})["__init__"] = "sklearn.base.%s.__init__" % cls
         R.ext_bases["sklearn.base." + cls] = []
+
+    def sk_ctor(clsname, methods):
+        def f(E, *a, **kw):
+            o = new_estimator(E, clsname.lower(), clsname, methods, False, dict(kw))
+            o.fields["$ctor_args"] = (a, dict(kw))
+            E.trace.append(dict(op="new", cls=clsname, params=dict(kw), args=a, result=o))
+            return o
+        return f
+    CLF = ("fit", "predict", "predict_proba", "decision_function", "get_params", "set_params", "score")
+    REG = ("fit", "predict", "get_params", "set_params", "score")
+    TRF = ("fit", "transform", "fit_transform", "get_params", "set_params")
+    for full, meths in (("sklearn.linear_model.LogisticRegression", CLF), ("sklearn.tree.DecisionTreeRegressor", REG + ("decision_path", "apply")),
+                        ("sklearn.tree.DecisionTreeClassifier", CLF + ("decision_path", "apply")), ("sklearn.neural_network.MLPRegressor", REG),
+                        ("sklearn.cluster.KMeans", ("fit", "predict", "transform", "get_params", "set_params")),
+                        ("sklearn.preprocessing.StandardScaler", TRF), ("sklearn.decomposition.NMF", TRF + ("inverse_transform",)),
+                        ("sklearn.decomposition.TruncatedSVD", TRF), ("sklearn.manifold.TSNE", ("fit", "fit_transform", "get_params", "set_params")),
+                        ("sklearn.neighbors.NearestNeighbors", ("fit", "kneighbors", "get_params", "set_params")),
+                        ("sklearn.preprocessing.KBinsDiscretizer", TRF)):
+        if full not in R.fns:
+            R.fns[full] = sk_ctor(full.split(".")[-1], meths)
+
+    def generic_sklearn_init(E, self_obj, *a, **kw):
+        """assumed: scikit-learn estimators store their constructor arguments verbatim"""
+        if a:
+            raise Unsupported("positional arguments to a scikit-learn constructor")
+        for k, v in kw.items():
+            E.setattr(self_obj, k, v)
+        E.note_assumption("scikit-learn base-class constructors store their keyword arguments verbatim as attributes")
+        return None
+    R.fns["*.__init__"] = generic_sklearn_init
 
     # ------------------------------------------------------------------ exp / log (uninterpreted + axioms)
     logF = z3.Function("ln", z3.RealSort(), z3.RealSort())
